@@ -1,4 +1,726 @@
-import Cppcms.C05.Model
-import Cppcms.C05.Spec
+import Cppcms.C05.Lemmas
+/-!
+# C05 — property theorems
+
+"Whenever loading a session cookie succeeds, the data and expiry returned are exactly those of some
+earlier save made with the same key material, and the expiry is not in the past; a cookie that does not
+decode to a cipher text this server produced is rejected without crashing and the cookie is cleared.
+Saving then loading returns the saved data for every payload."
+
+The model (`Model.lean`) is built on conditions/constants regenerated from the C++ source (`Gen.lean`).
+Primitives are parameters with explicit contracts (`MacAlg.Lawful`, `CbcAlg.Lawful`); authenticity is
+stated under the explicit ideal-MAC hypothesis `Spec.Unforgeable`.  Sizes: `Spec.SizeOk n` is `n < 2^64`
+(true of every `std::string`); `Spec.TimeOk t` is the `int64` range of `time_t`.
+
+Confidentiality ("an encrypting backend reveals neither the payload nor whether two payloads are equal")
+is a probabilistic statement no executable model expresses; only its bookkeeping is proved
+(`iv_fresh_per_object`) and the clause is claimed PARTIAL.
+
+`def FullStatement` at the end records the full-strength reading next to what is proved.
+-/
 namespace Cppcms.C05.Props
+open Cppcms Cppcms.C05
+
+/-! ## hmac_cipher -/
+
+/-- `hmac_cipher::equal`: with `n` readable bytes behind both pointers it reads nothing else and answers
+true iff ALL `n` bytes agree (no early exit, no prefix comparison). -/
+theorem equal_all_bytes (a b : Bytes) (n : Nat) (ha : n ≤ a.length) (hb : n ≤ b.length) :
+    equal a b n = .ok (decide (a.take n = b.take n)) :=
+  equal_spec a b n ha hb
+
+/-- hmac back-end: decrypt ∘ encrypt = id for every payload. -/
+theorem hmac_roundtrip (M : MacAlg) (hM : M.Lawful) (k p : Bytes) (hp : Spec.SizeOk (p.length + M.size)) :
+    hmacDecrypt M k (hmacEncrypt M k p) = .ok p := by
+  unfold Spec.SizeOk at hp
+  unfold hmacEncrypt
+  have hl : (p ++ M.tag k p).length = p.length + M.size := by rw [List.length_append, hM]
+  rw [hmacDecrypt_closed M hM k _ (by rw [hl]; exact hp), hl]
+  have hs : p.length + M.size - M.size = p.length := by omega
+  rw [hs, if_neg (by omega), List.take_left' rfl, List.drop_left' rfl, if_pos rfl]
+
+/-- hmac back-end: success means the cipher text is `p ‖ Mac k p` — the tag is computed over exactly the
+returned message and compared in full. -/
+theorem hmac_load_sound (M : MacAlg) (hM : M.Lawful) (k c p : Bytes) (hc : Spec.SizeOk c.length)
+    (h : hmacDecrypt M k c = .ok p) : Spec.HmacValid (M.tag k) c p := by
+  rw [hmacDecrypt_closed M hM k c hc] at h
+  split at h
+  · cases h
+  · split at h
+    · rename_i ht
+      injection h with h
+      subst h
+      unfold Spec.HmacValid
+      rw [ht, List.take_append_drop]
+    · cases h
+
+/-- hmac back-end: no undefined behaviour for ANY cipher text (truncated, empty, shorter than a digest…). -/
+theorem hmac_rejects_cleanly (M : MacAlg) (hM : M.Lawful) (k c : Bytes) (hc : Spec.SizeOk c.length) :
+    hmacDecrypt M k c ≠ .ub := by
+  rw [hmacDecrypt_closed M hM k c hc]
+  split
+  · simp
+  · split <;> simp
+
+/-! ## aes_cipher -/
+
+/-- The three size checks of `aes_cipher::decrypt` (as generated from the source, with the source's block
+size) guarantee that `real_size - block_size - sizeof(size)` does not wrap, that the length field and the
+MAC lie inside the cipher text, and that `real_size` is a whole number (≥ 2) of blocks. -/
+theorem aes_no_underflow (cs ds : Nat) (hcs : Spec.SizeOk cs)
+    (h1 : Gen.aesDecReject1 cs ds Gen.cbcBlock = false)
+    (h2 : Gen.aesDecReject2 (Gen.aesRealSize cs ds) Gen.cbcBlock = false)
+    (h3 : Gen.aesDecReject3 (Gen.aesRealSize cs ds) Gen.cbcBlock = false) :
+    Gen.aesRealSize cs ds + ds = cs ∧
+    Gen.aesDecLenOff Gen.cbcBlock + 4 ≤ Gen.aesRealSize cs ds ∧
+    Gen.wsub (Gen.wsub (Gen.aesRealSize cs ds) Gen.cbcBlock) 4 + Gen.aesDecDataOff Gen.cbcBlock = Gen.aesRealSize cs ds ∧
+    2 * Gen.cbcBlock ≤ Gen.aesRealSize cs ds ∧ Gen.cbcBlock ∣ Gen.aesRealSize cs ds := by
+  unfold Spec.SizeOk at hcs
+  rw [gen_block] at *
+  have e1 : Gen.aesDecReject1 cs ds 16 = decide (cs < ds + 16) := rfl
+  rw [e1] at h1
+  have hle : ds + 16 ≤ cs := by simpa using h1
+  have hreal : Gen.aesRealSize cs ds = cs - ds := wsub_eq (by omega) hcs
+  rw [hreal] at h2 h3 ⊢
+  have e2 : Gen.aesDecReject2 (cs - ds) 16 = true ↔ (cs - ds) % 16 ≠ 0 := by simp [Gen.aesDecReject2]
+  have hm : (cs - ds) % 16 = 0 := by
+    by_cases h : (cs - ds) % 16 = 0
+    · exact h
+    · rw [e2.2 h] at h2; cases h2
+  have e3 : Gen.aesDecReject3 (cs - ds) 16 = decide ((cs - ds) / 16 < 2) := rfl
+  rw [e3] at h3
+  have hq : ¬ (cs - ds) / 16 < 2 := by simpa using h3
+  have e0 : Gen.wsub (cs - ds) 16 = cs - ds - 16 := wsub_eq (by omega) (by omega)
+  have e4 : Gen.wsub (cs - ds - 16) 4 = cs - ds - 16 - 4 := wsub_eq (by omega) (by omega)
+  have o1 : Gen.aesDecLenOff 16 = 16 := rfl
+  have o2 : Gen.aesDecDataOff 16 = 20 := rfl
+  rw [e0, e4, o1, o2]
+  exact ⟨by omega, by omega, by omega, by omega, Nat.dvd_of_mod_eq_zero hm⟩
+
+/-- aes back-end: decrypt ∘ encrypt = id for every payload below 4 GiB − 36, whatever the IV state of the
+encrypting object (`st`) and of the decrypting object (`st2`); the cipher text is
+`E(frame) ‖ Mac(E(frame))`. -/
+theorem aes_roundtrip (C : CbcAlg) (M : MacAlg) (hC : C.Lawful) (hM : M.Lawful) (hds : M.size < 2 ^ 32)
+    (ck mk : Bytes) (st st2 : AesSt) (p : Bytes) (hp : p.length + 36 ≤ 2 ^ 32) :
+    ∃ c st', aesEncrypt C M ck mk st p = (.ok c, st') ∧ (aesDecrypt C M ck mk st2 c).1 = .ok p := by
+  obtain ⟨c, st', h1, _, h3⟩ := aes_roundtrip_core C M hC hM hds ck mk st st2 p hp
+  exact ⟨c, st', h1, h3⟩
+
+/-- aes back-end: success means `c = body ‖ Mac mk body` with the tag over the ENTIRE CBC text `body` (first
+block and length field included), `body` a whole number ≥ 2 of blocks, and the payload is what the framing
+says about the decrypted buffer; for cipher texts below 4 GiB that buffer is the CBC decryption of all of
+`body` (`Spec.AesValid`).  Nothing is accepted on a prefix, on a short block, or before the length field
+is authenticated. -/
+theorem aes_load_sound (C : CbcAlg) (M : MacAlg) (hC : C.Lawful) (hM : M.Lawful) (hds : M.size < 2 ^ 32)
+    (ck mk : Bytes) (st : AesSt) (c p : Bytes) (hc : Spec.SizeOk c.length)
+    (h : (aesDecrypt C M ck mk st c).1 = .ok p) :
+    ∃ body, c = body ++ M.tag mk body ∧ 16 ∣ body.length ∧ 32 ≤ body.length ∧
+      Spec.aesPayload 16 (aesFull C ck st.ivDec c body.length) = some p ∧
+      (c.length < 2 ^ 32 → Spec.AesValid (M.tag mk) (C.dec ck st.ivDec) 16 c body p) := by
+  rw [aesDecrypt_closed C M hC hM ck mk st c hc hds] at h
+  split at h
+  · cases h
+  · rename_i h1
+    split at h
+    · cases h
+    · rename_i h2
+      split at h
+      · cases h
+      · rename_i h3
+        split at h
+        · cases h
+        · rename_i h4
+          have htag : M.tag mk (c.take (c.length - M.size)) = c.drop (c.length - M.size) := by
+            simpa using h4
+          have hbl : (c.take (c.length - M.size)).length = c.length - M.size := by
+            rw [List.length_take]; omega
+          have hpay : Spec.aesPayload 16 (aesFull C ck st.ivDec c (c.length - M.size)) = some p := by
+            simp only [] at h
+            split at h
+            · rename_i q hq; injection h with h; rw [hq, h]
+            · cases h
+          have hsplit : c = c.take (c.length - M.size) ++ M.tag mk (c.take (c.length - M.size)) := by
+            rw [htag, List.take_append_drop]
+          have hdvd : 16 ∣ c.length - M.size := Nat.dvd_of_mod_eq_zero (by omega)
+          refine ⟨c.take (c.length - M.size), hsplit, by rw [hbl]; exact hdvd, by rw [hbl]; omega,
+            by rw [hbl]; exact hpay, ?_⟩
+          intro hsmall
+          refine ⟨hsplit, by rw [hbl]; exact hdvd, by rw [hbl]; omega, ?_⟩
+          rw [← aesFull_small C ck st.ivDec c (c.length - M.size) (by omega)]
+          exact hpay
+
+/-- aes back-end: no undefined behaviour for ANY cipher text: every read (`cipher.c_str()+real_size`, the
+length field at `full_plain[block_size]`, the payload `assign`) is inside its buffer, no subtraction wraps. -/
+theorem aes_rejects_cleanly (C : CbcAlg) (M : MacAlg) (hC : C.Lawful) (hM : M.Lawful) (hds : M.size < 2 ^ 32)
+    (ck mk : Bytes) (st : AesSt) (c : Bytes) (hc : Spec.SizeOk c.length) :
+    (aesDecrypt C M ck mk st c).1 ≠ .ub := by
+  rw [aesDecrypt_closed C M hC hM ck mk st c hc hds]
+  split
+  · simp
+  · split
+    · simp
+    · split
+      · simp
+      · split
+        · simp
+        · simp only []
+          split <;> simp
+
+/-! ## session_cookies (generic in the encryptor) -/
+
+/-- Round trip of the cookie layer over any encryptor whose `decrypt` inverts its `encrypt` on this
+plaintext: the cookie is `'C' ‖ base64url(cipher)`, loading it at any `now ≤ t` returns exactly `(d, t)` and
+does not clear the cookie. -/
+theorem cookie_roundtrip (enc dec : Bytes → Res Bytes) (now t : Int) (d cipher : Bytes)
+    (ht : Spec.TimeOk t) (hnow : now ≤ t)
+    (he : enc (timeBytes t ++ d) = .ok cipher) (hd : dec cipher = .ok (timeBytes t ++ d)) :
+    cookieSave enc false t d = .ok (67 :: C15.b64encodeStr cipher) ∧
+    cookieLoad dec now (67 :: C15.b64encodeStr cipher) = ⟨.ok (d, t), false⟩ := by
+  constructor
+  · rw [cookieSave_closed, he]
+  · rw [cookieLoad_closed]
+    simp only [ne_eq, not_true_eq_false, if_false]
+    rw [b64_decode_encode]
+    simp only [hd]
+    rw [afterDecrypt_spec, decodeBody_time t d ht]
+    simp only []
+    rw [if_neg (by omega)]
+
+/-- Soundness of the cookie layer: success means the cookie is `'C' ‖ text`, `text` base64url-decodes to
+a cipher text the encryptor accepts, the accepted plaintext is `time_t t ‖ d`, and `now ≤ t`; the cookie
+is not cleared. -/
+theorem cookie_load_sound (dec : Bytes → Res Bytes) (now t : Int) (cookie d : Bytes) (cl : Bool)
+    (h : cookieLoad dec now cookie = ⟨.ok (d, t), cl⟩) :
+    cl = false ∧ now ≤ t ∧ ∃ cipher plain, cookieCipher cookie = some cipher ∧ dec cipher = .ok plain ∧
+      Spec.decodeBody plain = some (d, t) := by
+  rw [cookieLoad_closed] at h
+  cases cookie with
+  | nil => simp at h
+  | cons c0 rest =>
+    simp only [] at h
+    split at h
+    · simp at h
+    · rename_i hc
+      rw [cookieCipher_cons, if_neg hc]
+      split at h
+      · simp at h
+      · rename_i cipher hb
+        split at h
+        · simp at h
+        · simp at h
+        · rename_i tmp hd
+          rw [afterDecrypt_spec] at h
+          cases hdb : Spec.decodeBody tmp with
+          | none => rw [hdb] at h; simp at h
+          | some v =>
+            obtain ⟨d', t'⟩ := v
+            rw [hdb] at h
+            simp only [] at h
+            split at h
+            · simp at h
+            · rename_i hlt
+              injection h with h1 h2
+              injection h1 with h1
+              injection h1 with hd' ht'
+              subst hd' ht'
+              exact ⟨h2.symm, by omega, cipher, tmp, hb, hd, hdb⟩
+
+/-- **rejects_cleanly**: for EVERY cookie string and every encryptor that has no undefined behaviour on
+the cipher text the cookie decodes to, `session_cookies::load` has none either (no index out of bounds, no
+uncaught `substr` exception); every failing path with a cookie present clears it (the empty cookie has
+nothing to clear); a success never clears. -/
+theorem rejects_cleanly (dec : Bytes → Res Bytes) (now : Int) (cookie : Bytes)
+    (hdec : ∀ cipher, cookieCipher cookie = some cipher → dec cipher ≠ .ub) :
+    (cookieLoad dec now cookie).result ≠ .ub ∧
+    ((cookieLoad dec now cookie).result = .fail → (cookieLoad dec now cookie).cleared = !cookie.isEmpty) ∧
+    (∀ v, (cookieLoad dec now cookie).result = .ok v → (cookieLoad dec now cookie).cleared = false) := by
+  rw [cookieLoad_closed]
+  cases cookie with
+  | nil => simp
+  | cons c0 rest =>
+    simp only []
+    split
+    · simp
+    · rename_i hc0
+      split
+      · simp
+      · rename_i cipher hb
+        have := hdec cipher (by rw [cookieCipher_cons, if_neg hc0, hb])
+        split
+        · contradiction
+        · simp
+        · rename_i tmp _
+          unfold afterDecrypt
+          split
+          · simp
+          · split <;> simp
+
+/-! ## the three back-ends end to end -/
+
+theorem b64decode_length (r c : Bytes) (h : C15.b64decode r [] = some c) : c.length ≤ r.length := by
+  unfold C15.b64decode at h
+  cases hds : C15.Gen.decodedSize r.length with
+  | none => rw [hds] at h; cases h
+  | some ds =>
+    rw [hds] at h
+    have hle : ds ≤ r.length := by
+      have h4 : r.length % 4 = 0 ∨ r.length % 4 = 1 ∨ r.length % 4 = 2 ∨ r.length % 4 = 3 := by omega
+      rcases h4 with k | k | k | k <;> simp [C15.Gen.decodedSize, k] at hds <;> omega
+    cases ds with
+    | zero => simp only [] at h; injection h with h; subst h; simp
+    | succ n =>
+      simp only [] at h
+      injection h with h
+      subst h
+      rw [List.length_take]
+      omega
+
+theorem cookieCipher_length (cookie cipher : Bytes) (h : cookieCipher cookie = some cipher) :
+    cipher.length ≤ cookie.length := by
+  cases cookie with
+  | nil => simp [cookieCipher] at h
+  | cons c0 rest =>
+    rw [cookieCipher_cons] at h
+    split at h
+    · cases h
+    · have := b64decode_length rest cipher h
+      simp only [List.length_cons]; omega
+
+/-- **save_load_roundtrip, hmac back-end** (hmac-md5 … hmac-sha512: any `MacAlg`): for every payload,
+every expiry in the `time_t` range and every `now ≤ t`. -/
+theorem save_load_roundtrip_hmac (M : MacAlg) (hM : M.Lawful) (k d : Bytes) (now t : Int)
+    (ht : Spec.TimeOk t) (hnow : now ≤ t) (hsz : Spec.SizeOk (8 + d.length + M.size)) :
+    ∃ cookie, hmacSave M k t d = .ok cookie ∧ hmacLoad M k now cookie = ⟨.ok (d, t), false⟩ := by
+  have hl : (timeBytes t ++ d).length = 8 + d.length := by rw [List.length_append, timeBytes_length]
+  have hr := hmac_roundtrip M hM k (timeBytes t ++ d) (by rw [hl]; exact hsz)
+  obtain ⟨h1, h2⟩ := cookie_roundtrip (fun p => .ok (hmacEncrypt M k p)) (hmacDecrypt M k) now t d
+    (hmacEncrypt M k (timeBytes t ++ d)) ht hnow rfl hr
+  exact ⟨_, h1, h2⟩
+
+/-- **save_load_roundtrip, aes back-end** (aes-128/192/256 + any HMAC, split or derived keys: any lawful
+`CbcAlg`/`MacAlg` and any keys): for every payload below 4 GiB − 44, every expiry, every `now ≤ t`, and any
+IV state of the saving (`st`) and of the loading (`st2`) object. -/
+theorem save_load_roundtrip_aes (C : CbcAlg) (M : MacAlg) (hC : C.Lawful) (hM : M.Lawful) (hds : M.size < 2 ^ 32)
+    (ck mk : Bytes) (st st2 : AesSt) (d : Bytes) (now t : Int)
+    (ht : Spec.TimeOk t) (hnow : now ≤ t) (hsz : d.length + 44 ≤ 2 ^ 32) :
+    ∃ cookie, aesSave C M ck mk st t d = .ok cookie ∧
+      aesLoadCookie C M ck mk st2 now cookie = ⟨.ok (d, t), false⟩ := by
+  have hl : (timeBytes t ++ d).length = 8 + d.length := by rw [List.length_append, timeBytes_length]
+  obtain ⟨c, st', h1, h3⟩ := aes_roundtrip C M hC hM hds ck mk st st2 (timeBytes t ++ d) (by rw [hl]; omega)
+  obtain ⟨r1, r2⟩ := cookie_roundtrip (fun p => (aesEncrypt C M ck mk st p).1)
+    (fun x => (aesDecrypt C M ck mk st2 x).1) now t d c ht hnow (by simp only [h1]) h3
+  exact ⟨_, r1, r2⟩
+
+/-- **load_sound, hmac back-end**: success ⇒ `now ≤ t`, the cookie is `'C' ‖ b64(cipher)` with
+`cipher = body ‖ Mac k body` and `body = time_t t ‖ d` — the MAC equation holds over the entire body. -/
+theorem load_sound_hmac (M : MacAlg) (hM : M.Lawful) (k cookie d : Bytes) (now t : Int) (cl : Bool)
+    (hsz : Spec.SizeOk cookie.length) (h : hmacLoad M k now cookie = ⟨.ok (d, t), cl⟩) :
+    cl = false ∧ now ≤ t ∧ ∃ cipher body, cookieCipher cookie = some cipher ∧
+      Spec.HmacValid (M.tag k) cipher body ∧ Spec.decodeBody body = some (d, t) := by
+  obtain ⟨h1, h2, cipher, plain, h3, h4, h5⟩ := cookie_load_sound (hmacDecrypt M k) now t cookie d cl h
+  have hlen := cookieCipher_length cookie cipher h3
+  exact ⟨h1, h2, cipher, plain, h3,
+    hmac_load_sound M hM k cipher plain (by unfold Spec.SizeOk at *; omega) h4, h5⟩
+
+/-- **load_sound, aes back-end**: success ⇒ `now ≤ t`, the cookie is `'C' ‖ b64(cipher)`,
+`cipher = body ‖ Mac mk body` over the whole CBC text (≥ 2 whole blocks), and the framed payload of the
+CBC decryption of `body` is `time_t t ‖ d` (`Spec.AesValid`; cookies below 4 GiB). -/
+theorem load_sound_aes (C : CbcAlg) (M : MacAlg) (hC : C.Lawful) (hM : M.Lawful) (hds : M.size < 2 ^ 32)
+    (ck mk : Bytes) (st : AesSt) (cookie d : Bytes) (now t : Int) (cl : Bool)
+    (hsz : cookie.length < 2 ^ 32) (h : aesLoadCookie C M ck mk st now cookie = ⟨.ok (d, t), cl⟩) :
+    cl = false ∧ now ≤ t ∧ ∃ cipher body plain, cookieCipher cookie = some cipher ∧
+      Spec.AesValid (M.tag mk) (C.dec ck st.ivDec) 16 cipher body plain ∧
+      Spec.decodeBody plain = some (d, t) := by
+  obtain ⟨h1, h2, cipher, plain, h3, h4, h5⟩ :=
+    cookie_load_sound (fun x => (aesDecrypt C M ck mk st x).1) now t cookie d cl h
+  have hlen := cookieCipher_length cookie cipher h3
+  obtain ⟨body, _, _, _, _, hv⟩ :=
+    aes_load_sound C M hC hM hds ck mk st cipher plain (by unfold Spec.SizeOk; omega) h4
+  exact ⟨h1, h2, cipher, body, plain, h3, hv (by omega), h5⟩
+
+/-- **rejects_cleanly, hmac back-end, end to end**: for EVERY cookie string (of representable length) -/
+theorem rejects_cleanly_hmac (M : MacAlg) (hM : M.Lawful) (k cookie : Bytes) (now : Int)
+    (hsz : Spec.SizeOk cookie.length) :
+    (hmacLoad M k now cookie).result ≠ .ub ∧
+    ((hmacLoad M k now cookie).result = .fail → (hmacLoad M k now cookie).cleared = !cookie.isEmpty) ∧
+    (∀ v, (hmacLoad M k now cookie).result = .ok v → (hmacLoad M k now cookie).cleared = false) := by
+  apply rejects_cleanly
+  intro cipher hc
+  have := cookieCipher_length cookie cipher hc
+  exact hmac_rejects_cleanly M hM k cipher (by unfold Spec.SizeOk at *; omega)
+
+/-- **rejects_cleanly, aes back-end, end to end**: for EVERY cookie string, any IV state -/
+theorem rejects_cleanly_aes (C : CbcAlg) (M : MacAlg) (hC : C.Lawful) (hM : M.Lawful) (hds : M.size < 2 ^ 32)
+    (ck mk : Bytes) (st : AesSt) (cookie : Bytes) (now : Int) (hsz : Spec.SizeOk cookie.length) :
+    (aesLoadCookie C M ck mk st now cookie).result ≠ .ub ∧
+    ((aesLoadCookie C M ck mk st now cookie).result = .fail →
+      (aesLoadCookie C M ck mk st now cookie).cleared = !cookie.isEmpty) ∧
+    (∀ v, (aesLoadCookie C M ck mk st now cookie).result = .ok v →
+      (aesLoadCookie C M ck mk st now cookie).cleared = false) := by
+  apply rejects_cleanly
+  intro cipher hc
+  have := cookieCipher_length cookie cipher hc
+  exact aes_rejects_cleanly C M hC hM hds ck mk st cipher (by unfold Spec.SizeOk at *; omega)
+
+/-! ## authenticity under the ideal-MAC hypothesis -/
+
+/-- **authenticity, hmac back-end.**  `issued` = the `(data, expiry)` pairs saved earlier under key `k`;
+the bodies MAC'ed by the server are `time_t t ‖ d` for those pairs.  HYPOTHESIS `Spec.Unforgeable`: the
+presented cipher text verifies only if its body is one of them.  Then a successful load returns one of the
+issued pairs, unexpired. -/
+theorem authenticity_hmac (M : MacAlg) (hM : M.Lawful) (k cookie cipher d : Bytes) (now t : Int) (cl : Bool)
+    (issued : List (Bytes × Int)) (hissued : ∀ x ∈ issued, Spec.TimeOk x.2)
+    (hsz : Spec.SizeOk cookie.length) (hc : cookieCipher cookie = some cipher)
+    (hU : Spec.Unforgeable (M.tag k) (issued.map fun x => timeBytes x.2 ++ x.1) cipher)
+    (h : hmacLoad M k now cookie = ⟨.ok (d, t), cl⟩) :
+    (d, t) ∈ issued ∧ now ≤ t := by
+  obtain ⟨_, h2, cipher', body, h3, h4, h5⟩ := load_sound_hmac M hM k cookie d now t cl hsz h
+  rw [hc] at h3
+  injection h3 with h3
+  subst h3
+  have hm := hU body h4
+  rw [List.mem_map] at hm
+  obtain ⟨x, hx, hxb⟩ := hm
+  rw [← hxb, decodeBody_time x.2 x.1 (hissued x hx)] at h5
+  injection h5 with h5
+  rw [← h5]
+  exact ⟨hx, h2⟩
+
+/-- **authenticity, aes back-end.**  `issued` = `(iv, data, expiry)` triples: the saves made earlier with
+this key material, each with whatever IV the CBC object had; the bodies MAC'ed by the server are the CBC
+texts of their frames.  Under `Spec.Unforgeable`, a successful load (any IV state of the loading object)
+returns the data and expiry of one of them, unexpired. -/
+theorem authenticity_aes (C : CbcAlg) (M : MacAlg) (hC : C.Lawful) (hM : M.Lawful) (hds : M.size < 2 ^ 32)
+    (ck mk : Bytes) (st : AesSt) (cookie cipher d : Bytes) (now t : Int) (cl : Bool)
+    (issued : List (Bytes × Bytes × Int))
+    (hissued : ∀ x ∈ issued, Spec.TimeOk x.2.2 ∧ x.2.1.length + 44 ≤ 2 ^ 32)
+    (hsz : cookie.length < 2 ^ 32) (hc : cookieCipher cookie = some cipher)
+    (hU : Spec.Unforgeable (M.tag mk)
+      (issued.map fun x => C.enc ck x.1 (aesFrame (timeBytes x.2.2 ++ x.2.1))) cipher)
+    (h : aesLoadCookie C M ck mk st now cookie = ⟨.ok (d, t), cl⟩) :
+    (∃ iv, (iv, d, t) ∈ issued) ∧ now ≤ t := by
+  obtain ⟨_, h2, cipher', body, plain, h3, h4, h5⟩ :=
+    load_sound_aes C M hC hM hds ck mk st cookie d now t cl hsz h
+  rw [hc] at h3
+  injection h3 with h3
+  subst h3
+  obtain ⟨hsplit, _, _, hpay⟩ := h4
+  have hm := hU body hsplit
+  rw [List.mem_map] at hm
+  obtain ⟨x, hx, hxb⟩ := hm
+  obtain ⟨iv, d', t'⟩ := x
+  obtain ⟨hto, hlen⟩ := hissued _ hx
+  simp only [] at hxb hto hlen
+  -- the body is the CBC text of an issued frame: decrypting under any IV gives that frame back
+  have hb : C.block = 16 := hC.block_eq
+  have hpl : (timeBytes t' ++ d').length = 8 + d'.length := by rw [List.length_append, timeBytes_length]
+  have hf := aesBuf_facts (timeBytes t' ++ d').length
+  have hdd := hC.dec_enc ck iv st.ivDec (aesFrame (timeBytes t' ++ d'))
+    (by rw [hb, aesFrame_length]; exact hf.1)
+  rw [hb, hxb] at hdd
+  have hbl : body.length = aesBuf (timeBytes t' ++ d').length := by
+    rw [← hxb, hC.enc_len, aesFrame_length]
+  have hp := aesPayload_frame (timeBytes t' ++ d') (C.dec ck st.ivDec body) (by rw [hpl]; omega)
+    (by rw [hC.dec_len, hbl]) hdd
+  rw [hp] at hpay
+  injection hpay with hpay
+  rw [← hpay, decodeBody_time t' d' hto] at h5
+  injection h5 with h5
+  injection h5 with h5a h5b
+  subst h5a h5b
+  exact ⟨⟨iv, hx⟩, h2⟩
+
+/-- **wrong_key_or_algo** (corollary).  Let the loading side use MAC function `tag` (i.e. *its* key and
+algorithm).  If, under the ideal-MAC hypothesis for that key, the presented cipher text is not
+`body ‖ tag body` for any body the server MAC'ed with it — a cookie made under a different key, a different
+MAC algorithm, or by a different back-end — then both back-ends reject, clear the cookie, and do not
+crash. -/
+theorem wrong_key_or_algo (C : CbcAlg) (M : MacAlg) (hC : C.Lawful) (hM : M.Lawful) (hds : M.size < 2 ^ 32)
+    (k ck : Bytes) (st : AesSt) (cookie cipher : Bytes) (now : Int) (signed : List Bytes)
+    (hsz : cookie.length < 2 ^ 32) (hc : cookieCipher cookie = some cipher)
+    (hU : Spec.Unforgeable (M.tag k) signed cipher)
+    (hforeign : ∀ body ∈ signed, cipher ≠ body ++ M.tag k body) :
+    hmacLoad M k now cookie = ⟨.fail, true⟩ ∧ aesLoadCookie C M ck k st now cookie = ⟨.fail, true⟩ := by
+  have hne : cookie ≠ [] := by intro h; subst h; simp [cookieCipher] at hc
+  have hlen := cookieCipher_length cookie cipher hc
+  have hcs : Spec.SizeOk cipher.length := by unfold Spec.SizeOk; omega
+  have key : ∀ dec : Bytes → Res Bytes, dec cipher ≠ .ub →
+      (∀ p, dec cipher = .ok p → ∃ body, cipher = body ++ M.tag k body) →
+      cookieLoad dec now cookie = ⟨.fail, true⟩ := by
+    intro dec hub hs
+    obtain ⟨r1, r2, r3⟩ := rejects_cleanly dec now cookie (fun c' hc' => by
+      rw [hc] at hc'; injection hc' with hc'; subst hc'; exact hub)
+    generalize ho : cookieLoad dec now cookie = o at *
+    obtain ⟨res, cl⟩ := o
+    cases res with
+    | ub => simp at r1
+    | fail =>
+      have := r2 rfl
+      simp only [] at this
+      rw [this]
+      cases cookie with
+      | nil => exact absurd rfl hne
+      | cons _ _ => rfl
+    | ok v =>
+      exfalso
+      obtain ⟨d, t⟩ := v
+      obtain ⟨_, _, cipher', plain, h3, h4, _⟩ := cookie_load_sound dec now t cookie d cl ho
+      rw [hc] at h3
+      injection h3 with h3
+      subst h3
+      obtain ⟨body, hb⟩ := hs plain h4
+      exact hforeign body (hU body hb) hb
+  constructor
+  · apply key (hmacDecrypt M k)
+    · exact hmac_rejects_cleanly M hM k cipher hcs
+    · intro p hp
+      exact ⟨p, hmac_load_sound M hM k cipher p hcs hp⟩
+  · apply key (fun x => (aesDecrypt C M ck k st x).1)
+    · exact aes_rejects_cleanly C M hC hM hds ck k st cipher hcs
+    · intro p hp
+      obtain ⟨body, hb, _⟩ := aes_load_sound C M hC hM hds ck k st cipher p hcs hp
+      exact ⟨body, hb⟩
+
+/-! ## confidentiality: bookkeeping only (PARTIAL) -/
+
+theorem aesPayload_congr (f g : Bytes) (hl : f.length = g.length) (hd : f.drop 16 = g.drop 16) :
+    Spec.aesPayload 16 f = Spec.aesPayload 16 g := by
+  unfold Spec.aesPayload
+  have h20 : f.drop (16 + 4) = g.drop (16 + 4) := by rw [← List.drop_drop, ← List.drop_drop, hd]
+  rw [hd, hl, h20]
+
+/-- **Bookkeeping behind the confidentiality clause (the clause itself is claimed PARTIAL).**
+(1) the two IVs of a cipher object are the first 16+16 bytes drawn from the entropy source at its first
+use, (2) a loaded object does not draw again (the IV then chains through `AES_cbc_encrypt`), (3) the
+first plaintext block is an all-zero dummy, so the unknown IV only garbles a block that is thrown away,
+(4) hence — for a CBC whose decryption depends on the IV only in the first block — `decrypt` gives the
+same answer whatever the IV state of the decrypting object. -/
+theorem confidentiality_partial (C : CbcAlg) (M : MacAlg) (hC : C.Lawful) (hM : M.Lawful) (hds : M.size < 2 ^ 32)
+    (ck mk : Bytes) :
+    (∀ e, aesLoad none e = ({ ivEnc := e.take 16, ivDec := (e.drop 16).take 16 }, e.drop 32)) ∧
+    (∀ s e, aesLoad (some s) e = (s, e)) ∧
+    (∀ p : Bytes, p.length < 2 ^ 32 → aesInput C p = some (aesFrame p) ∧ (aesFrame p).take 16 = zeros 16) ∧
+    ((∀ k iv iv' x, (C.dec k iv x).drop C.block = (C.dec k iv' x).drop C.block) →
+      ∀ st st' c, c.length < 2 ^ 32 → (aesDecrypt C M ck mk st c).1 = (aesDecrypt C M ck mk st' c).1) := by
+  refine ⟨fun e => rfl, fun s e => rfl, ?_, ?_⟩
+  · intro p hp
+    refine ⟨aesInput_closed C hC.block_eq p hp, ?_⟩
+    unfold aesFrame
+    rw [List.append_assoc, List.append_assoc, List.take_left' (zeros_length 16)]
+  · intro hiv st st' c hc
+    have hb : C.block = 16 := hC.block_eq
+    rw [aesDecrypt_closed C M hC hM ck mk st c (by omega) hds,
+        aesDecrypt_closed C M hC hM ck mk st' c (by omega) hds]
+    split
+    · rfl
+    · split
+      · rfl
+      · split
+        · rfl
+        · split
+          · rfl
+          · simp only []
+            rw [aesFull_small C ck st.ivDec c _ (by omega), aesFull_small C ck st'.ivDec c _ (by omega)]
+            have := hiv ck st.ivDec st'.ivDec (c.take (c.length - M.size))
+            rw [hb] at this
+            rw [aesPayload_congr _ _ (by rw [hC.dec_len, hC.dec_len]) this]
+
+
+/-! ## configuration -/
+
+theorem hmacCipherNew_ok (algo : String) (key : Bytes) (e : EncCfg) (h : hmacCipherNew algo key = .ok e) :
+    16 ≤ key.length ∧ ∃ n, digestSize algo = some n ∧ e = .hmac (lower algo) key := by
+  unfold hmacCipherNew at h
+  have hr : Gen.hmacKeyRefused key.length = decide (key.length < 16) := rfl
+  split at h
+  · cases h
+  · rename_i hk
+    rw [hr] at hk
+    cases hd : digestSize algo with
+    | none => rw [hd] at h; cases h
+    | some n =>
+      rw [hd] at h
+      injection h with h
+      exact ⟨by simpa using hk, n, rfl, h.symm⟩
+
+theorem aesFactoryNew_ok (mac : String → MacAlg) (algo : String) (k : Bytes) (e : EncCfg)
+    (h : aesFactoryNew mac algo k = .ok e) :
+    ∃ ck mk, e = .aes algo ck Gen.aesDefaultMac mk ∧ (digestSize Gen.aesDefaultMac).isSome := by
+  unfold aesFactoryNew at h
+  split at h
+  · rename_i cks ds _ hds
+    split at h
+    · injection h with h; exact ⟨_, _, h.symm, by rw [hds]; rfl⟩
+    · split at h
+      · injection h with h; exact ⟨_, _, h.symm, by rw [hds]; rfl⟩
+      · cases h
+  · cases h
+  · cases h
+
+theorem aesFactory4New_ok (cbc : String) (ck : Bytes) (m : String) (mk : Bytes) (e : EncCfg)
+    (h : aesFactory4New cbc ck m mk = .ok e) :
+    e = .aes cbc ck (lower m) mk ∧ (digestSize m).isSome := by
+  unfold aesFactory4New at h
+  split at h
+  · cases h
+  · split at h
+    · cases h
+    · split at h
+      · cases h
+      · rename_i hd
+        injection h with h; exact ⟨h.symm, by rw [hd]; rfl⟩
+
+
+/-- **configuration refusals** of `session_pool::init` (+ `hmac_cipher`'s constructor), conditions as
+generated from the source: (1) a CBC cipher without a MAC is refused; (2) client-side storage without any
+method is refused; (3) mixing the two configuration styles is refused; (4) every accepted signature-only
+configuration has a key of at least 16 bytes. -/
+theorem config_refusals (mac : String → MacAlg) (c : ClientCfg) :
+    (c.encryptor = "" → c.hmac = "" → c.cbc ≠ "" → poolInit mac c = .error .cbcWithoutMac) ∧
+    (c.encryptor = "" → c.hmac = "" → c.cbc = "" → poolInit mac c = .error .noMethod) ∧
+    (c.encryptor ≠ "" → (c.hmac ≠ "" ∨ c.cbc ≠ "") → poolInit mac c = .error .bothStyles) ∧
+    (∀ algo key, poolInit mac c = .ok (.hmac algo key) → 16 ≤ key.length) := by
+  have hemp : ∀ s : String, s.isEmpty = true ↔ s = "" := fun s => String.isEmpty_iff
+  refine ⟨?_, ?_, ?_, ?_⟩
+  · intro h1 h2 h3
+    have e3 : c.cbc.isEmpty = false := by
+      cases h : c.cbc.isEmpty
+      · rfl
+      · exact absurd ((hemp _).1 h) h3
+    unfold poolInit
+    simp only [h1, h2, e3]
+    rfl
+  · intro h1 h2 h3
+    unfold poolInit
+    simp only [h1, h2, h3]
+    rfl
+  · intro h1 h23
+    have e1 : c.encryptor.isEmpty = false := by
+      cases h : c.encryptor.isEmpty
+      · rfl
+      · exact absurd ((hemp _).1 h) h1
+    unfold poolInit
+    simp only [e1]
+    rcases h23 with h | h
+    · have e2 : c.hmac.isEmpty = false := by
+        cases h' : c.hmac.isEmpty
+        · rfl
+        · exact absurd ((hemp _).1 h') h
+      simp only [e2]
+      cases c.cbc.isEmpty <;> rfl
+    · have e2 : c.cbc.isEmpty = false := by
+        cases h' : c.cbc.isEmpty
+        · rfl
+        · exact absurd ((hemp _).1 h') h
+      simp only [e2]
+      cases c.hmac.isEmpty <;> rfl
+  · intro algo key h
+    unfold poolInit at h
+    simp only [] at h
+    split at h
+    · cases h
+    · split at h
+      · cases h
+      · split at h
+        · cases h
+        · split at h
+          · split at h
+            · obtain ⟨hk, n, _, he⟩ := hmacCipherNew_ok _ _ _ h
+              injection he with _ he; rw [he]; exact hk
+            · split at h
+              · obtain ⟨hk, n, _, he⟩ := hmacCipherNew_ok _ _ _ h
+                injection he with _ he; rw [he]; exact hk
+              · split at h
+                · obtain ⟨_, _, he, _⟩ := aesFactoryNew_ok _ _ _ _ h
+                  cases he
+                · cases h
+          · split at h
+            · obtain ⟨hk, n, _, he⟩ := hmacCipherNew_ok _ _ _ h
+              injection he with _ he; rw [he]; exact hk
+            · obtain ⟨he, _⟩ := aesFactory4New_ok _ _ _ _ _ h
+              cases he
+
+
+/-! ## The full statement, and what of it is proved
+
+`FullStatement` (not provable in any executable model; kept here so that the gap is visible):
+
+* for the REAL HMAC and AES-CBC, for every polynomially bounded client that has seen any number of cookies
+  issued under a secret key, the probability that it presents a cookie which `load` accepts and which does
+  not decode to an issued cipher text is negligible            — proved here: `authenticity_*`,
+  `wrong_key_or_algo` with that event excluded by HYPOTHESIS (`Spec.Unforgeable`), and `load_sound_*`
+  (acceptance ⇒ the MAC equation over the whole body) without any hypothesis on the MAC;
+* cookies of an encrypting back-end are computationally independent of the payload (IND-CPA)
+                                                               — proved here: only `confidentiality_partial`
+  (fresh IVs per object from the entropy source, dummy first block, IV-independent decryption).
+
+Everything else in the property's statement (round trip for every payload and back-end, expiry not in the
+past, rejection without crash + cookie cleared for every cookie string) is proved at full strength, for
+the model, under the primitives' contracts `MacAlg.Lawful` / `CbcAlg.Lawful`. -/
+
+/-! ## Non-vacuity: the hypotheses are satisfiable, the statements read as intended -/
+
+/-- a toy MAC with a 2-byte tag (sum of key and message bytes, message length) -/
+def toyMac : MacAlg :=
+  { tag := fun k m => [UInt8.ofNat ((k ++ m).foldl (fun a b => a + b.toNat) 0), UInt8.ofNat m.length], size := 2 }
+
+/-- a toy "CBC": xor of every byte with the first key byte; the IV is ignored -/
+def toyCbc : CbcAlg :=
+  { enc := fun k _ x => x.map (· ^^^ k.headD 0), dec := fun k _ x => x.map (· ^^^ k.headD 0), block := 16, keySize := 16 }
+
+example : toyMac.Lawful := fun _ _ => rfl
+
+example : toyCbc.Lawful :=
+  { block_eq := rfl
+    enc_len := fun _ _ x => by simp [toyCbc]
+    dec_len := fun _ _ x => by simp [toyCbc]
+    dec_enc := fun k _ _ x _ => by
+      have : (x.map (· ^^^ k.headD 0)).map (· ^^^ k.headD 0) = x := by
+        rw [List.map_map]
+        conv => rhs; rw [← List.map_id x]
+        apply List.map_congr_left
+        intro a _
+        simp [UInt8.xor_assoc]
+      show List.drop 16 ((x.map (· ^^^ k.headD 0)).map (· ^^^ k.headD 0)) = List.drop 16 x
+      rw [this] }
+
+example : Spec.TimeOk 1700000000 ∧ Spec.TimeOk (-5) := by unfold Spec.TimeOk; omega
+
+/-- the ideal-MAC hypothesis holds of an honestly issued cipher text … -/
+example : Spec.Unforgeable (toyMac.tag [7]) [[1, 2, 3]] ([1, 2, 3] ++ toyMac.tag [7] [1, 2, 3]) := by
+  intro body h
+  have hl := congrArg List.length h
+  simp [toyMac] at hl
+  match body, hl with
+  | [a, b, c], _ =>
+    simp [toyMac] at h
+    simp [h.1, h.2.1, h.2.2.1]
+
+/-- … and is a real restriction: it fails for a forged one (so the authenticity theorems are not vacuous
+implications from an unsatisfiable or a trivial hypothesis) -/
+example : ¬ Spec.Unforgeable (toyMac.tag [7]) [[1, 2, 3]] ([9] ++ toyMac.tag [7] [9]) := by
+  intro h
+  have := h [9] rfl
+  simp at this
+
+/-- concrete runs of the model (hmac back-end): save, load at the expiry second, one second later, and a
+cookie with one flipped character -/
+example : hmacSave toyMac [7] 5 [104, 105] = .ok [67, 66, 81, 65, 65, 65, 65, 65, 65, 65, 65, 66, 111, 97, 100, 48, 75] := by
+  decide +kernel
+example : hmacLoad toyMac [7] 5 [67, 66, 81, 65, 65, 65, 65, 65, 65, 65, 65, 66, 111, 97, 100, 48, 75] = ⟨.ok ([104, 105], 5), false⟩ := by
+  decide +kernel
+example : hmacLoad toyMac [7] 6 [67, 66, 81, 65, 65, 65, 65, 65, 65, 65, 65, 66, 111, 97, 100, 48, 75] = ⟨.fail, true⟩ := by
+  decide +kernel
+example : hmacLoad toyMac [7] 5 [67, 66, 81, 65, 65, 65, 65, 65, 65, 65, 65, 66, 111, 97, 100, 48, 76] = ⟨.fail, true⟩ := by
+  decide +kernel
+example : hmacLoad toyMac [7] 5 [] = ⟨.fail, false⟩ := by decide +kernel
+
+/-- concrete runs of the model (aes back-end): save under one IV state, load under another -/
+example : aesSave toyCbc toyMac [9] [7] ⟨[], []⟩ 5 [104, 105] = .ok [67, 67, 81, 107, 74, 67, 81, 107, 74, 67, 81, 107, 74, 67, 81, 107, 74, 67, 81, 107, 74, 67, 81, 77, 74, 67, 81, 107, 77, 67, 81, 107, 74, 67, 81, 107, 74, 67, 87, 70, 103, 67, 81, 110, 84, 73, 65] := by
+  decide +kernel
+example : aesLoadCookie toyCbc toyMac [9] [7] ⟨[1], [2]⟩ 5 [67, 67, 81, 107, 74, 67, 81, 107, 74, 67, 81, 107, 74, 67, 81, 107, 74, 67, 81, 107, 74, 67, 81, 77, 74, 67, 81, 107, 77, 67, 81, 107, 74, 67, 81, 107, 74, 67, 87, 70, 103, 67, 81, 110, 84, 73, 65] = ⟨.ok ([104, 105], 5), false⟩ := by
+  decide +kernel
+example : aesLoadCookie toyCbc toyMac [9] [7] ⟨[1], [2]⟩ 5 [67, 67, 81, 107, 74, 67, 81, 107, 74, 67, 81, 107, 74, 67, 81, 107, 74, 67, 81, 107, 74, 67, 81, 77, 74, 67, 81, 107, 77, 67, 81, 107, 74, 67, 81, 107, 74, 67, 87, 70, 104, 67, 81, 110, 84, 73, 65] = ⟨.fail, true⟩ := by
+  decide +kernel
+
 end Cppcms.C05.Props
